@@ -333,6 +333,11 @@ def resolved(func_node, expr, depth=3):
                 nstores += 1
             if isinstance(n, ast.Assign) and len(n.targets) == 1 and isinstance(n.targets[0], ast.Name) and n.targets[0].id == expr.id:
                 defs.append(n.value)
+            elif isinstance(n, ast.Assign) and len(n.targets) == 1 and isinstance(n.targets[0], (ast.Tuple, ast.List)) and isinstance(n.value, (ast.Tuple, ast.List)):
+                # element-wise tuple assignment  nx, ny, nz = n[0], n[1], n[2]
+                for t_, v_ in assign_pairs(n):
+                    if isinstance(t_, ast.Name) and t_.id == expr.id:
+                        defs.append(v_)
             if isinstance(n, ast.AugAssign) and isinstance(n.target, ast.Name) and n.target.id == expr.id:
                 nstores += 1
         if len(defs) != 1 or nstores != 1:
